@@ -296,7 +296,7 @@ Definition fl_fresh (m : Z) (s : seg) : Prop := seg_len s <= m /\ s_xmit s = 0 /
 Lemma fl_admit_spec W m cv una cw :
   0 <= cw <= W -> W < 32768 ->
   forall sq sb nxt n sq' sb' nxt' n',
-    admit sq sb cv una nxt cw n = (sq', sb', nxt', n') ->
+    admit_segs sq sb cv una nxt cw n = (sq', sb', nxt', n') ->
     nxt = u32 (una + qlen sb) -> qlen sb <= W -> Forall (fl_fresh m) sq ->
     exists pre adm,
       sq = pre ++ sq' /\ sb' = sb ++ adm /\ nxt' = u32 (una + qlen sb') /\ qlen sb' <= W /\
@@ -305,11 +305,11 @@ Lemma fl_admit_spec W m cv una cw :
       contiguous (u32 (una + qlen sb)) adm.
 Proof.
   intros Hcw HW. induction sq as [|s t IH]; intros sb nxt n sq' sb' nxt' n' He Hn Hl Hf.
-  - cbn [admit] in He. inversion He; subst. exists [], []. rewrite !app_nil_r.
+  - cbn [admit_segs] in He. inversion He; subst. exists [], []. rewrite !app_nil_r.
     split; [reflexivity|]. split; [reflexivity|]. split; [reflexivity|]. split; [assumption|].
     split; [unfold qlen; cbn [length Z.of_nat]; lia|]. split; [left; reflexivity|].
     split; [constructor|exact I].
-  - cbn [admit] in He.
+  - cbn [admit_segs] in He.
     destruct (itimediff nxt (u32 (una + cw)) >=? 0) eqn:E.
     + inversion He; subst. exists [], []. rewrite !app_nil_r.
     split; [reflexivity|]. split; [reflexivity|]. split; [reflexivity|]. split; [assumption|].
@@ -348,7 +348,7 @@ Definition fl_cw (k3 : kcp) : Z :=
 
 Definition fl_ph4 (k3 : kcp) (ft : Z) : list seg * list seg * Z * Z :=
   if ft =? FLUSH_FULL
-  then admit (snd_queue k3) (snd_buf k3) (conv k3) (snd_una k3) (snd_nxt k3) (fl_cw k3) 0
+  then admit_segs (snd_queue k3) (snd_buf k3) (conv k3) (snd_una k3) (snd_nxt k3) (fl_cw k3) 0
   else (snd_queue k3, snd_buf k3, snd_nxt k3, 0).
 
 Definition fl_k4 (k3 : kcp) (sq sb : list seg) (nxt : Z) : kcp :=
